@@ -62,3 +62,21 @@ F("strict-flag-ignored", ["C10"], (T_, "            if self.strict:\n           
 B("length-flipped-spelling", ["C10", "C04"], (T_, "len(value) > self.length:", "self.length < len(value):"))
 B("digits-not-lt", ["C10", "C04"], (T_, "value >= 10**length:", "not value < 10**length:"))
 B("integer-unconvert-inline", ["C10", "C11"], (T_, "        value = self.enforce_length(value)\n        return str(value)", "        return str(self.enforce_length(value))"))
+
+# ---------------------------------------------------------------- C04 / construction funnel
+F("init-drops-validate", ["C04"], (B_, "        list.__init__(self)\n        self.validate_args(*args, **kwargs)\n", "        list.__init__(self)\n"))
+F("init-validate-without-kwargs", ["C04"], (B_, "        self.validate_args(*args, **kwargs)\n\n        for attr", "        self.validate_args(*args)\n\n        for attr"))
+F("order-nonstrict-and-no-dupcheck", ["C04"], (B_, "            if index <= prev_index and not (is_listmember and prev_is_listmember):", "            if index < prev_index and not (is_listmember and prev_is_listmember):"), (B_, "                if attrname in kwargs:\n                    raise OFXSpecError\n", ""))
+B("order-nonstrict-only", ["C04"], (B_, "            if index <= prev_index and not (is_listmember and prev_is_listmember):", "            if index < prev_index and not (is_listmember and prev_is_listmember):"))
+B("dupcheck-removed-only", ["C04"], (B_, "                if attrname in kwargs:\n                    raise OFXSpecError\n", ""))
+F("order-exempt-any-listmember", ["C04"], (B_, "and not (is_listmember and prev_is_listmember):", "and not (is_listmember or prev_is_listmember):"))
+F("setattr-error-swallowed", ["C04"], (B_, "            except ValueError as exc:\n                cls = self.__class__.__name__\n                msg = exc.args[0]\n                raise type(exc)(f\"Can't set {cls}.{attr} to {value}: {msg}\")", "            except ValueError as exc:\n                logger.warning(f\"Can't set {attr} to {value}: {exc}\")"))
+F("subclass-init-skips-super", ["C04"], ("ofxtools/models/common.py", "class BAL(Aggregate):\n    \"\"\"OFX section 3.1.4\"\"\"\n", "class BAL(Aggregate):\n    \"\"\"OFX section 3.1.4\"\"\"\n\n    def __init__(self, *args, **kwargs):\n        list.__init__(self)\n        for k, v in kwargs.items():\n            setattr(self, k, v)\n"))
+F("optional-predicate-le2", ["C04"], (B_, "            predicate=lambda x: x <= 1,", "            predicate=lambda x: x <= 2,"))
+F("required-predicate-ge1", ["C04"], (B_, "            predicate=lambda x: x == 1,", "            predicate=lambda x: x >= 1,"))
+F("apply-args-no-admission", ["C04", "C13"], (B_, "                if arg not in self.listaggregates:\n                    msg = f\"{clsnm} can't contain {arg} as list item: {member}\"\n                    raise TypeError(msg)\n", "                if arg not in self.listaggregates:\n                    logger.debug(f\"{clsnm}: unexpected list item {arg}\")\n"))
+F("count-truthy-not-none", ["C04"], (B_, "count = sum([kwargs.get(m, None) is not None for m in mutex])", "count = sum([bool(kwargs.get(m, None)) for m in mutex])"))
+F("position-not-threaded", ["C04", "C07"], (B_, "            return args, kwargs, index, is_listmember", "            return args, kwargs, prev_index, is_listmember"))
+F("descriptor-stores-raw", ["C04", "C03"], (T_, "        obj.__dict__[self.name] = self.convert(value)", "        obj.__dict__[self.name] = value"))
+B("predicate-lt2", ["C04"], (B_, "            predicate=lambda x: x <= 1,", "            predicate=lambda x: x < 2,"))
+B("order-guard-flipped", ["C04"], (B_, "            if index <= prev_index and not (is_listmember and prev_is_listmember):", "            if prev_index >= index and not (is_listmember and prev_is_listmember):"))
